@@ -32,6 +32,13 @@ def gen_C02(v, n):
         l, s, f = v.typed_sid(search=0.25)
         l2, s2, f2 = v.typed_sid(search=0.25)
         out.append(_op("C02", {"s": s, "s2": rng.choice([s2, s]), "seed": rng.randrange(10 ** 6)}))
+    for _ in range(max(5, n // 20)):      # the same string as a Sid OBJECT of another type first, then the forms
+        label, s, fields = v.typed_sid(search=0.6)
+        others = [l for l in v.labels if len(v.tdict[l]) == len(fields) and l != label]
+        if others:
+            pre = [o + ":" + s for o in rng.sample(others, min(2, len(others)))]
+            out.append(_op("C02", {"s": s, "pre": pre, "seed": rng.randrange(10 ** 6)}))
+            out.append(_op("C02", {"s": s, "pre": pre[::-1] + [label + ":" + s], "seed": rng.randrange(10 ** 6)}))
     return out
 
 
